@@ -262,3 +262,32 @@ func (m *Model) RowsWith(col string, pred func(Val) bool) (out []uint32) {
 	}
 	return
 }
+
+// PointRead runs one transaction that does nothing but point reads (every column of
+// the first live row through the Row getters). The SEQ letters run it before their
+// own work, so that the hidden state such a transaction leaves in the pooled Txn
+// objects is the same whether a state was reached in place or rebuilt by replay.
+func (w *World) PointRead() {
+	if w.Poisoned {
+		return
+	}
+	defer func() {
+		if r := recover(); r != nil {
+			// a panic here is reported by the next checked observation
+		}
+	}()
+	offs := w.M.Offsets()
+	if len(offs) == 0 {
+		return
+	}
+	cols := append([]ColDef{}, w.M.Cols...)
+	if !w.Cfg.NoExpire {
+		cols = append(cols, ColDef{Name: ExpireCol, Kind: "int64"})
+	}
+	w.C.QueryAt(offs[0], func(r column.Row) error {
+		for _, c := range cols {
+			w.M.Col(c.Name).Read(r, c.Name)
+		}
+		return nil
+	})
+}
